@@ -17,6 +17,7 @@ import (
 	"log"
 	"math/bits"
 	"os"
+	"regexp"
 	"strconv"
 	"strings"
 
@@ -443,10 +444,19 @@ func (c *ctx) proposedKnown(site, class, inputHex string) bool {
 		if m == nil {
 			continue
 		}
-		if m["kind"] == "hexlen_lt" {
+		switch m["kind"] {
+		case "hexlen_lt":
 			if n, ok := m["n"].(float64); ok && len(inputHex)/2 < int(n) {
 				return true
 			}
+		case "regex":
+			if pat, ok := m["pattern"].(string); ok {
+				if re, err := regexp.Compile(pat); err == nil && re.MatchString(inputHex) {
+					return true
+				}
+			}
+		case "any":
+			return true
 		}
 	}
 	return false
@@ -454,11 +464,11 @@ func (c *ctx) proposedKnown(site, class, inputHex string) bool {
 
 func (c *ctx) getterPanic(g *getter, buf []byte) {
 	site := "nasType.MobileIdentity5GS." + g.name
+	c.f9count++
 	if c.proposedKnown(site, "panic", hk.Hex(buf)) {
 		c.suppress++
 		return
 	}
-	c.f9count++
 	k := fmt.Sprintf("%s/%d", g.name, len(buf))
 	if len(buf) >= g.minLen {
 		k = fmt.Sprintf("%s/%d/%x", g.name, len(buf), buf) // beyond the proven bound: every witness is new
@@ -717,7 +727,9 @@ func (c *ctx) stmsiCheck(a amfT, tmsi uint32, stream string) {
 		o := c.getterCase(stream, getterByName(e.g), wire, true)
 		c.expectStrs("nasType.MobileIdentity5GS."+e.g, hk.Hex(wire), o, e.want...)
 	}
-	c.getterCase(stream, getterByName("GetMobileIdentity"), wire, true)
+	// F25 (fixed, c23cc0d): GetMobileIdentity used to answer the 5G-TMSI only
+	og := c.getterCase(stream, getterByName("GetMobileIdentity"), wire, true)
+	c.expectStrs("nasType.MobileIdentity5GS.GetMobileIdentity", hk.Hex(wire), og, text, "5G-S-TMSI")
 	var t nasType.TMSI5GS
 	copy(t.Octet[:], wire)
 	o := catch(func() obsT {
@@ -1004,6 +1016,20 @@ func (c *ctx) stdlib() {
 		}
 		c.emit(st, fmt.Sprintf("CAtoiByte %d", b), fmt.Sprintf("strconv.Atoi(string(byte(%d)))", b), o, fmt.Sprintf("ab%d", b))
 	}
+	// ParseInt: directed (order of syntax / range errors; the bitSize-1 quirk found by the thorough run)
+	for _, e := range []struct {
+		s        string
+		base, bs int
+	}{{"-5a8b3", 10, 1}, {"-32768", 8, 1}, {"-2", 10, 1}, {"-1", 10, 1}, {"-0", 10, 1}, {"-1x", 10, 1}, {"1x", 10, 1}, {"1", 10, 1}, {"0", 10, 1},
+		{"-2x", 10, 2}, {"-3", 10, 2}, {"-2", 10, 2}, {"1", 10, 2}, {"2", 10, 2}, {"99999999999999999999x", 10, 64}, {"-99999999999999999999x", 10, 0},
+		{"x99999999999999999999", 10, 64}, {"ffffffffffffffffg", 16, 64}, {"7fffffffffffffff", 16, 64}, {"-8000000000000000", 16, 64}, {"8000000000000000", 16, 0}} {
+		v, err := strconv.ParseInt(e.s, e.base, e.bs)
+		o := okN(v)
+		if err != nil {
+			o = obsT{err: true}
+		}
+		c.emit(st, fmt.Sprintf("CParseInt %s %d %d", hk.CoqStr(e.s), e.base, e.bs), fmt.Sprintf("strconv.ParseInt(%q,%d,%d)", e.s, e.base, e.bs), o, fmt.Sprintf("pi%s/%d/%d", e.s, e.base, e.bs))
+	}
 	// ParseInt
 	for i := 0; i < r.N(80, 800); i++ {
 		base := []int{10, 16, 2, 36, 8, 1, 37}[rng.Intn(7)]
@@ -1161,6 +1187,7 @@ func runC12(r *hk.Run) {
 			c.getterCase(st, &getters[i], w, true)
 		}
 	}
+	c.stmsiCheck(amfT{0, 0x3f8, 0}, 1, st) // F25 (fixed): f4 fe 00 00 00 00 01 -> GetMobileIdentity = "fe0000000001"
 	c.gutiTextCase("20893cafe0000000001", st)
 	c.gutiTextCase("208930cafe0000000001", st)
 	c.suciCheck(suciT{p: mkPlmn(208, 93, 2), ri: []int{0}, scheme: 0, hnpki: 0, msin: []int{0, 0, 0, 0, 7, 4, 8, 7}}, st) // "suci-0-208-93-0-0-0-00007487"
@@ -1522,5 +1549,5 @@ func runC12(r *hk.Run) {
 		r.Fail(c.f9[k])
 	}
 	r.Extra["getter_panics_total"] = c.f9count
-	r.Extra["getter_panics_suppressed_as_proposed_known"] = c.suppress
+	r.Extra["failures_suppressed_as_proposed_known"] = c.suppress
 }
